@@ -138,7 +138,7 @@ Inductive pc :=
 Inductive event :=
 | ERLock (k : callid) (o : oid) (evs : list Z) (subs : list cid)   (* publish call k took the read lock and saw subs *)
 | EHandoff (k : callid) (p : pair)      (* the event was put into the channel / handed to a receiver *)
-| ETimeout (k : callid) (p : pair)      (* the timer branch of the select was taken *)
+| ETimeout (k : callid) (p : pair) (cb : bool)   (* the timer branch of the select was taken; cb: OnPubTimeout will be called *)
 | ECallback (k : callid) (p : pair)     (* OnPubTimeout(ev) was called *)
 | EDone (k : callid) (p : pair)         (* send(..) returned for this pair *)
 | EPubRet (k : callid)                  (* the publish call returned *)
@@ -355,8 +355,8 @@ Definition step_send (c : config) (t : tid) (th : thread) (ch : choice) (k : cal
                 [EDone k p; ERecv r (p_sub p) (p_ev p); EHandoff k p])
   | STimedOut =>
       if cb
-      then Some (log (set_thread c t (with_pc th pc_cb)) [ETimeout k p])
-      else Some (log (set_thread c t (with_pc th pc_sent)) [EDone k p; ETimeout k p])
+      then Some (log (set_thread c t (with_pc th pc_cb)) [ETimeout k p true])
+      else Some (log (set_thread c t (with_pc th pc_sent)) [EDone k p; ETimeout k p false])
   end.
 
 (* ---- the step function ---- *)
